@@ -101,7 +101,7 @@ def _k_gap_restart(clause, facts):
         ends inside an earlier gene moves the start of the next gap back into the earlier gene.
         Must not hide: excess overlap into a gene that does not contain the end of a later-sorted
         gene, or into an origin-spanning gene; missing/unexpected ORFs away from such a gene. """
-    if not facts.get("later_gene_ends_inside_earlier_gene"):
+    if not facts.get("gene_ends_inside_earlier_starting_gene"):
         return False
     if clause == "find-overlap-exceeds-allowance":
         return facts.get("overlapped_gene_contains_later_gene_end") is True
@@ -450,33 +450,31 @@ def gene_extents(parts, strand, length):
     return [(min(s for s, _ in upper), length), (0, max(e for _, e in lower))], True
 
 
-def _genes_ending_inside_earlier(spans):
-    """ genes that (in sorted order) end before the furthest end of the genes sorted before them """
-    reach = None
-    out = []
-    for start, end in sorted(spans):
-        if reach is not None and end < reach:
-            out.append((start, end))
-        reach = end if reach is None else max(reach, end)
-    return out
+def _contains_end_of_other(extent, others):
+    """ another gene starts at or after this one's start and ends before this one's end """
+    return any(other != extent and extent[0] <= other[0] and other[1] < extent[1] for other in others)
 
 
-def _contains_later_end(extent, nested_ends):
-    """ the gene extent is sorted before such a gene and ends after it """
-    return any(extent < other and extent[1] > other[1] for other in nested_ends)
-
-
-def reference_windows(length, extents, area, minimum, allowance):
-    """ windows (offset, wlen) the reference searches, with per-window notes """
+def _segments(length, area):
     if area is None:
-        segments = [(0, length)]
-    elif area[0] < area[1]:
-        segments = [(area[0], area[1])]
-    else:
-        segments = [(area[0], length), (0, area[1])]
+        return [(0, length)]
+    if area[0] < area[1]:
+        return [(area[0], area[1])]
+    return [(area[0], length), (0, area[1])]
+
+
+def _touches(exons, lo, hi):
+    return any(s < hi and e > lo for s, e in exons)
+
+
+def reference_windows(length, genes, area, minimum, allowance):
+    """ windows (offset, wlen, notes) the reference searches. `genes` are (exons, extents) pairs; a
+        gene belongs to a searched segment when one of its exons has a base in it, and then counts
+        with its extent (introns included) """
+    segments = _segments(length, area)
     per_segment = []
     for lo, hi in segments:
-        spans = [(s, e) for s, e in extents if s < hi and e > lo]
+        spans = [ext for exons, exts in genes if _touches(exons, lo, hi) for ext in exts if ext[0] < hi and ext[1] > lo]
         per_segment.append(R.gaps_between(lo, hi, spans, allowance))
     windows = []
     if len(segments) == 2 and per_segment[0] and per_segment[1] \
@@ -489,6 +487,16 @@ def reference_windows(length, extents, area, minimum, allowance):
     for gaps in per_segment:
         windows.extend((s, e - s, {"through_origin": False, "short_side": False}) for s, e in gaps)
     return [w for w in windows if w[1] >= minimum], segments
+
+
+def longest_run_inside(reading, gene_bases):
+    """ longest stretch of consecutive ORF bases that lie in the gene: the overlap at one end of the ORF
+        (an ORF on a small ring may touch the same gene with both ends) or the whole ORF if inside """
+    best = run = 0
+    for position in reading:
+        run = run + 1 if position in gene_bases else 0
+        best = max(best, run)
+    return best
 
 
 def evaluate_find(ctx, case):
@@ -510,22 +518,18 @@ def evaluate_find(ctx, case):
         area_feature = DummySubRegion(area[0], area[1], record_length=length)
 
     extents_per_gene = [gene_extents(parts, strand, length) for parts, strand in genes]
-    extents = [ext for exts, _ in extents_per_gene for ext in exts]
-    windows, segments = reference_windows(length, extents, area, minimum, allowance)
-
-    def in_scope(ext):
-        return any(ext[0] < hi and ext[1] > lo for lo, hi in segments)
-
-    scope = [ext for ext in extents if in_scope(ext)]
-    origin_gene_in_scope = any(spanning and any(in_scope(ext) for ext in exts) for exts, spanning in extents_per_gene)
-    nested_ends = [g for lo, hi in segments
-                   for g in _genes_ending_inside_earlier([(s, e) for s, e in scope if s < hi and e > lo])]
-    short_gene = any(sum(e - s for s, e in exts) <= 2 * allowance and any(in_scope(ext) for ext in exts)
-                     for exts, _ in extents_per_gene)
+    gene_info = [(parts, exts) for (parts, _), (exts, _) in zip(genes, extents_per_gene)]
+    windows, segments = reference_windows(length, gene_info, area, minimum, allowance)
+    in_scope = [any(_touches(parts, lo, hi) for lo, hi in segments) for parts, _ in gene_info]
+    scope = [ext for (exts, _), inside in zip(extents_per_gene, in_scope) if inside for ext in exts]
+    origin_gene_in_scope = any(spanning and inside for (_, spanning), inside in zip(extents_per_gene, in_scope))
+    nested = any(_contains_end_of_other(ext, scope) for ext in scope)
+    short_gene = any(inside and sum(e - s for s, e in exts) <= 2 * allowance
+                     for (exts, _), inside in zip(extents_per_gene, in_scope))
     area_kind = "none" if area is None else ("simple" if area[0] < area[1] else "origin-spanning")
     base = {"L": length, "circular": circular, "area": area_kind, "minimum_length": minimum,
             "max_overlap": allowance, "genes": len(genes), "origin_spanning_gene_in_scope": origin_gene_in_scope,
-            "later_gene_ends_inside_earlier_gene": bool(nested_ends)}
+            "gene_ends_inside_earlier_starting_gene": nested}
 
     # what the reference expects
     expected: dict = {}
@@ -569,8 +573,9 @@ def evaluate_find(ctx, case):
         area_bases = set()
         for lo, hi in segments:
             area_bases.update(range(lo, hi))
-    extent_sets = [(set().union(*(range(s, e) for s, e in exts)), exts, spanning)
-                   for exts, spanning in extents_per_gene]
+    # exon bases decide an overlap; extents (with introns) only say where gaps are
+    extent_sets = [(set().union(*(range(s, e) for s, e in parts)), exts, spanning)
+                   for (parts, _), (exts, spanning) in zip(genes, extents_per_gene)]
 
     seen: dict = {}
     reaches_k3: dict = {}
@@ -585,7 +590,8 @@ def evaluate_find(ctx, case):
                 or (len(parts) == 2 and (sorted(parts)[0][0] != 0 or sorted(parts)[1][1] != length)):
             ctx.violate("find-illformed-location", facts, case)
             continue
-        bases = frozenset(R.read_positions(parts, strand))
+        reading = R.read_positions(parts, strand)
+        bases = frozenset(reading)
         as_reported = R.read_sequence(seq, parts, strand).upper()
         wraps = len(parts) > 1
         facts.update(orf_len=len(bases), orf_wraps=wraps)
@@ -596,10 +602,10 @@ def evaluate_find(ctx, case):
         into_origin_gene = False
         into_k3_gene = False
         for gene_bases, exts, spanning in extent_sets:
-            shared = len(bases & gene_bases)
-            if not shared:
+            if not bases & gene_bases:
                 continue
-            contains_later_end = (not spanning) and _contains_later_end(tuple(exts[0]), nested_ends)
+            shared = longest_run_inside(reading, gene_bases)
+            contains_later_end = (not spanning) and _contains_end_of_other(tuple(exts[0]), scope)
             into_origin_gene = into_origin_gene or spanning
             into_k3_gene = into_k3_gene or contains_later_end
             if shared <= allowance:
@@ -789,9 +795,9 @@ def gen_find_case(rng):
     minimum = rng.choice([0, 0, 6, 9, 15, 30, 60])
     how = "fixed"
     if rng.random() < 0.45:
-        extents = [ext for g in genes for ext in
-                   gene_extents([tuple(p) for p in g["parts"]], g["strand"], length)[0]]
-        windows, _ = reference_windows(length, extents, area, 0, allowance)
+        info = [([tuple(p) for p in g["parts"]], gene_extents([tuple(p) for p in g["parts"]], g["strand"], length)[0])
+                for g in genes]
+        windows, _ = reference_windows(length, info, area, 0, allowance)
         lengths = []
         for offset, wlen, _notes in windows:
             chunk = "".join(seq[p] for p in R.window_positions(offset, wlen, length))
